@@ -467,9 +467,9 @@ pub const SUBS: &[Sub] = &[
 pub fn run(ctx: &Ctx) {
     run_regress(ctx, SUBS);
     drive_enum(ctx, &SUBS[0], 8);
-    drive_random(ctx, &SUBS[1], ctx.n(200_000, 10_000_000), 300);
+    drive_random(ctx, &SUBS[1], ctx.n(200_000, 100_000_000), 300);
     if !ctx.quick() && !ctx.failed() {
-        crate::fuzzing::drive_fuzz(ctx, "decoder", 3_000_000);
+        crate::fuzzing::drive_fuzz(ctx, "decoder", 1_000_000);
     }
 }
 
